@@ -19,12 +19,14 @@ RULE = ("cases drawn from one PRNG (VERIF_SEED). A case is a scripted session ag
         "register_error, seal_errors, set_incomplete_chunk, pending_data, complete-future-k, poll, errors(), "
         "get_incomplete_chunk, and real Resource / OnceResource / SharedValue creation under an Owner with a codec for each "
         "IntoEncodedString / FromEncodedStr impl (String: JsonSerdeCodec, FromToStringCodec; Vec<u8>/[u8], i.e. base64: "
-        "FromToBytesCodec), each also checked as a pure pair (real encode -> real client-side decode); the stream is then polled to its end, futures completing in the "
+        "FromToBytesCodec); for each, the string the real codec hands over is logged and the real browser-side construction of "
+        "the same resource (initial_value / SharedValue under a hydrating SharedContext holding that string) must yield the value; the stream is then polled to its end, futures completing in the "
         "order the case dictates. Kinds: payload (one adversarial string through write_async), error (one "
         "adversarial error message, before or after pending_data), resource (one real resource per codec), "
         "sized (payloads whose encoded length sits on the boundaries 0..10, 3k+-1, 1023..1025, 4095..4099, 8191..8194, "
         "12286..12290, 16384, 20000, 24577 bytes, mostly through the binary encoding), "
-        "session (2-7 resources/errors/chunks, random completion order and interleaved polls, sealing), ids "
+        "session (2-7 resources/errors/chunks, random completion order and interleaved polls, sealing), consume (several "
+        "futures leaving through SsrSharedContext::consume_buffers() under every kind of completion order), ids "
         "(nested hydrated / non-hydrated regions in islands mode). Strings come from an adversarial alphabet "
         "(< > & \" ' / = ` NUL, <!--, -->, ]]>, </script, </title, </textarea, </style, <script, backslashes, "
         "\\u003c and other escape look-alikes, digits after NUL, CR/LF/U+2028/U+2029, DEL, combining marks, astral "
@@ -62,7 +64,8 @@ NAMED = {0, 9, 10, 13, 92, 34}
 
 PIECES = ["<", ">", "&", '"', "'", "/", "=", "`", "\0", "<!--", "-->", "]]>", "</script", "</script>", "</SCRIPT >",
           "</title", "</textarea", "</style", "<script", "<script>", "\\", "\\\\", "\\u003c", "\\u{3c}", "\\x3c", "\\0",
-          "\\074", "0", "1", "7", "8", "9", "\r", "\n", "\r\n", "\u2028", "\u2029", "\x7f", "\x1b", "\x08", "\x0c", "\t",
+          "\\074", "\\u0000", "\\u{0}", "\\u{7f}", "\\u{301}", "\\u{2028}", "\\n", "\\r", "\\t", "\\\"", "\\'",
+          "\\u003C", "\\\\u003c", "&#60;", "\\x00", "0", "1", "7", "8", "9", "\r", "\n", "\r\n", "\u2028", "\u2029", "\x7f", "\x1b", "\x08", "\x0c", "\t",
           "\u0301", "\u200d", "\ufeff", "\ufffd", "\ufffe", "\U0001F600", "\U0010FFFF", "\u00e9", "a", "b", "Z", " ", "u", "{", "}",
           "x", "$", "(", ")", ";", ",", "[", "]", "alert(1)", "<img src=x onerror=alert(1)>", "&lt;", "&amp;", "&#60;",
           "\u00ad", "\u061c", "\u180e", "\u2000", "\U000E0001", "\u0377", "\u0378", "\u0900", "\U0001F3FB"]
@@ -288,6 +291,46 @@ def gen_session(rng, ids_focus=False):
     return finish(mode, script, "ids" if ids_focus else "session")
 
 
+def gen_consume(rng):
+    """several futures, then consume_buffers() with a random completion order (also orders in
+    which a later-registered future completes first); sometimes the stream afterwards"""
+    mode = 1 if rng.random() < 0.2 else 0
+    script = []
+    if mode:
+        script.append([1, 1])
+    n_gates = 0
+    n_ids = 0
+    for _ in range(rng.randint(2, 6)):
+        r = rng.random()
+        if r < 0.45:
+            script.append([0])
+            n_ids += 1
+            script.append([2, [1, n_ids - 1], cps(text(rng, 5))])
+            n_gates += 1
+        elif r < 0.85:
+            kind = rng.choice([0, 1, 2])
+            script.append([12, kind, rng.choice([0, 1, 2]), cps(text(rng, 5))])
+            if kind != 2:
+                n_gates += 1
+        else:
+            script.append([3, [0, rng.randint(0, 3)], [0, rng.randint(0, 9)], cps(text(rng, 4))])
+    pre = [k for k in range(n_gates) if rng.random() < 0.3]
+    for k in pre:
+        script.append([7, k])
+    order = list(range(n_gates))
+    rng.shuffle(order)
+    if rng.random() < 0.5:
+        order = list(reversed(range(n_gates)))
+    if rng.random() < 0.3:
+        order = order[:rng.randint(0, len(order))]
+    script.append([14, order])
+    if rng.random() < 0.3:
+        script.append([0])
+        n_ids += 1
+        script.append([2, [1, n_ids - 1], cps(text(rng, 4))])
+    return finish(mode, script, "consume")
+
+
 def generate(rng, tier):
     n = 5000 if tier == "quick" else 100000
     batch = []
@@ -296,6 +339,8 @@ def generate(rng, tier):
         batch.append(lambda nb=nb: finish(0, [[12, rng.choice([0, 1, 2]), 2, cps(sized_text(rng, nb))]], "sized"))
     for i in range(60 if tier == "quick" else 600):
         batch.append(lambda: gen_sized(rng))
+    for i in range(n // 10):
+        batch.append(lambda: gen_consume(rng))
     for i in range(n):
         r = rng.random()
         if r < 0.30:
@@ -342,6 +387,8 @@ def oracle(item, impl):
     g = {}
     problems = []
     n_chunks = [0]
+    by_consume = {}         # id -> strings that left the context through consume_buffers()
+    consumed = [False]
 
     def resolve(src):
         if src[0] == 1:
@@ -383,7 +430,7 @@ def oracle(item, impl):
         elif op == 1:
             hyd = bool(cmd[1])
         elif op == 2:
-            if not stream_over():
+            if not stream_over() and not consumed[0]:
                 writes.setdefault(resolve(cmd[1]), []).append(s_of(cmd[2]))
         elif op == 3:
             errors.append((resolve(cmd[1]), resolve(cmd[2]), s_of(cmd[3]), not stream_over()))
@@ -398,11 +445,23 @@ def oracle(item, impl):
         elif op == 12:
             e = take_entry()
             if e[0] != 13 or e[1] != 1:
-                problems.append("codec %d: the real client-side decoding (FromEncodedStr + Decoder) of the real "
-                                "server-side encoding (Encoder + IntoEncodedString) does not return the %d-byte value"
-                                % (cmd[2], len(s_of(cmd[3]).encode("utf-8"))))
+                problems.append("codec %d, kind %d: the real browser-side construction of the resource, reading the string "
+                                "the server-side codec produced for the %d-byte value, does not hydrate with that value"
+                                % (cmd[2], cmd[1], len(s_of(cmd[3]).encode("utf-8"))))
+            wire = s_of(e[2]) if len(e) > 2 else None
             if not mode or hyd:
-                client_expect.append(("res", cmd[2], s_of(cmd[3])) if not stream_over() else ("late",))
+                client_expect.append(("res", cmd[2], s_of(cmd[3]), wire) if not (stream_over() or consumed[0]) else ("late",))
+        elif op == 14:
+            # the futures completed while consume_buffers() was pending, then its result
+            e = take_entry()
+            while e[0] == 7:
+                e = take_entry()
+            if e[0] != 14:
+                problems.append("consume_buffers did not finish (marker %r)" % (e[0],))
+            else:
+                for pid, pdata in e[1]:
+                    by_consume.setdefault(int(s_of(pid)), []).append(s_of(pdata))
+            consumed[0] = True
     client_ids = None
     for e in log[li:]:
         if e[0] == 8:
@@ -421,8 +480,15 @@ def oracle(item, impl):
         return "__RESOLVED_RESOURCES is not an array after the scripts ran"
 
     def read(i):
+        """the string the browser finds under id i: from the scripts, or — for what left the
+        context through consume_buffers() — what a custom hydration context would hand over"""
         v = resolved.get(js_num(i))
-        return v.rust() if isinstance(v, J.JSString) else None
+        if isinstance(v, J.JSString):
+            return v.rust()
+        got = by_consume.get(i)
+        if got:
+            return got[0] if len(got) == 1 else None
+        return None
 
     # ids handed out to hydrated code agree between server and browser; the n-th resource
     # created in the browser finds the n-th resource's value
@@ -434,6 +500,9 @@ def oracle(item, impl):
             got = read(cid)
             if got is None:
                 return "resource created %d-th in the browser finds no data under id %d" % (client_ids.index(cid), cid)
+            if exp[3] is not None and got != exp[3]:
+                return ("id %d: the browser reads %r..., the codec handed over %r... (%d vs %d chars)"
+                        % (cid, got[:60], exp[3][:60], len(got), len(exp[3])))
             if exp[1] == 0:
                 try:
                     val = json.loads(got)
@@ -503,7 +572,7 @@ def valid_case(item):
         if case[0] != 1 or len(case) != 4 or case[1] not in (0, 1):
             return False
         mode, escset, script = case[1], case[2], case[3]
-        arity = {0: 1, 1: 2, 2: 3, 3: 4, 4: 2, 5: 2, 6: 1, 7: 2, 8: 1, 9: 2, 10: 2, 12: 4}
+        arity = {0: 1, 1: 2, 2: 3, 3: 4, 4: 2, 5: 2, 6: 1, 7: 2, 8: 1, 9: 2, 10: 2, 12: 4, 14: 2}
         chars = set()
         for cmd in script:
             if not isinstance(cmd, list) or not cmd or cmd[0] not in arity or len(cmd) != arity[cmd[0]]:
@@ -516,6 +585,8 @@ def valid_case(item):
                 a = cmd[k]
                 if not (isinstance(a, list) and len(a) == 2 and a[0] in (0, 1) and isinstance(a[1], int) and 0 <= a[1] < 2 ** 53):
                     return False
+            if op == 14 and not (isinstance(cmd[1], list) and all(isinstance(k, int) and 0 <= k < 1000 for k in cmd[1])):
+                return False
             if op == 7 and not (isinstance(cmd[1], int) and 0 <= cmd[1] < 1000):
                 return False
             if op == 12 and (cmd[1] not in (0, 1, 2) or cmd[2] not in (0, 1, 2)):
@@ -582,7 +653,7 @@ def describe(it):
         return "debug classes of %r" % s_of(case[1])
     names = {0: "next_id", 1: "set_is_hydrating", 2: "write_async", 3: "register_error", 4: "seal_errors",
              5: "set_incomplete_chunk", 6: "pending_data", 7: "complete", 8: "poll", 9: "errors", 10: "get_incomplete_chunk",
-             12: "resource"}
+             12: "resource", 14: "consume_buffers"}
     out = []
     for cmd in case[3]:
         args = []
